@@ -1,5 +1,8 @@
 """C12: model-native datasets are converted with the right units and direction sense
 (reference-encoder monitor: native datasets built in memory from a ground-truth spectrum)."""
+import os
+import shutil
+
 import numpy as np
 
 from vf.cmp import close, circ_diff
@@ -38,6 +41,7 @@ def run(ctx):
     from wavespectra.input import ww3, ncswan, wwm, era5, ndbc
 
     disp = Dispatch(dmod)
+    ctx.file_readers = {"ww3": ww3.read_ww3, "ncswan": ncswan.read_ncswan, "wwm": wwm.read_wwm, "era5": era5.read_era5, "ndbc": ndbc.read_ndbc}
     direct = {"ww3": ww3.from_ww3, "ncswan": ncswan.from_ncswan, "wwm": wwm.from_wwm, "era5": era5.from_era5, "ndbc": ndbc.from_ndbc}
     for i, rng in ctx.cases("native", ctx.n(4000, 60000)):
         model = MODELS[i % len(MODELS)]
@@ -64,7 +68,10 @@ def sibling(rng, ds):
 
 def one(ctx, rng, xr, model, dmod, disp, direct):
     rec = ctx.rec
-    via = "read_dataset" if rng.random() < 0.6 else "from_" + model
+    u_ = rng.random()
+    # routes: the dispatcher, the converter, and - through a NetCDF-3 file written from the native dataset - the
+    # file reader (read_<model>) and the registered xarray engine (xr.open_dataset(path, engine=<model>))
+    via = "read_dataset" if u_ < 0.5 else ("from_" + model if u_ < 0.8 else ("read_%s(file)" % model if u_ < 0.9 else "open_dataset(engine=%s)" % model))
     opts = {}
     if model == "ww3":
         opts = dict(with_wind=bool(rng.random() < 0.7), with_depth=bool(rng.random() < 0.7), lonlat_time=bool(rng.random() < 0.6))
@@ -117,8 +124,28 @@ def one(ctx, rng, xr, model, dmod, disp, direct):
         key += "|after-sibling"
         rec.ok("history", "%s|%s" % (model, via))
     disp.take()
+    tmpd = None
     try:
-        out = dmod.read_dataset(ds, **kw) if via == "read_dataset" else direct[model](ds, **kw)
+        if via == "read_dataset":
+            out = dmod.read_dataset(ds, **kw)
+        elif via.startswith("from_"):
+            out = direct[model](ds, **kw)
+        else:
+            import tempfile
+            tmpd = tempfile.mkdtemp(prefix="vf-c12-")
+            path = os.path.join(tmpd, "native_%s.nc" % model)
+            try:
+                ds.to_netcdf(path, format="NETCDF3_64BIT")
+            except Exception as e:      # the monitor's own file could not be written: nothing observed
+                rec.skip("convert", "native dataset not expressible as NetCDF-3: %s" % type(e).__name__)
+                return
+            if via.startswith("read_"):
+                out = ctx.file_readers[model](path, **kw)
+            else:
+                out = xr.open_dataset(path, engine=model, **kw)
+            out = out.load()
+            out.close()
+            rec.note("file_route:" + via.split("(")[0].split("_")[0] + ":" + model)
     except Exception as e:
         mech = "converter-raises:" + model
         if model == "era5" and "truth value of an array" in repr(e) and any(isinstance(v_, np.ndarray) for v_ in kw.values()):
@@ -127,6 +154,9 @@ def one(ctx, rng, xr, model, dmod, disp, direct):
             mech = "wwm-missing-optional-variable-raises"
         rec.bad("convert", key, {"raised": repr(e)[:300], "variables": list(ds.variables)}, mech)
         return
+    finally:
+        if tmpd:
+            shutil.rmtree(tmpd, ignore_errors=True)
     if via == "read_dataset":
         chosen = disp.take()
         if chosen[:1] == ["from_" + model]:
